@@ -17,7 +17,9 @@ rule = ("scripts = 'm frags <hex>,<hex>,..' (every fragment its own exact-size m
         "into fragments x every insertion of up to 2 empty fragments (thorough: also length 4 x every composition x at most "
         "1 empty fragment) x {len; chr/rchr of each letter; str/rstr/fcn/rfcn "
         "with 3 sets; tok with 16 (tok,com,esc) combinations; cpy with every length -1..len+1 into 4 target layouts; "
-        "read of every length 0..len+1 with and without target; argv/args with 5 separators; append}; both tiers add a seeded "
+        "read of every length 0..len+1 with and without target; argv/args with 5 separators; append, also with a failing "
+        "allocation}; refused appends: 1-3 fragments of sizes {0,3,61,62,64,65,130,200,2000} onto arrays of 0/2/64/70 bytes with "
+        "the 1st/2nd/3rd allocation inside mpt_message_append failing (malloc wrapped); both tiers add a seeded "
         "sample of length 4 with 2 empty fragments, thorough also of length 5;  stream 2 = quoted/escaped/whitespace argument "
         "texts cut at every pair of positions, and every wrapped queue of capacity <= 4 through mpt_message_get; "
         "stream 3 = random op histories on random cuts of longer texts, some malformed ops. "
@@ -29,7 +31,9 @@ assumptions = [
     "libc memchr/memcpy/strlen/isspace/isgraph (C locale) behave as specified",
     "fragment lengths sum to less than SSIZE_MAX (the EOVERFLOW branches are not modelled)",
     "mpt_array_append/mpt_array_slice/mpt_array_clone behave as a plain growing byte vector (array semantics are property C04); "
-    "allocation failure is exercised only for the one allocation of mpt_array_message ('m args <sep> nomem', malloc wrapped)",
+    "allocation failure is exercised for the one allocation of mpt_array_message ('m args <sep> nomem') and for every allocation "
+    "of mpt_message_append ('m append <prefix> nomem:<k>'), malloc wrapped; the model knows the buffer capacities of "
+    "array/buffer_alloc.c (64-byte header, 128-byte granules) to predict which fragment is refused",
     "mpt_memcpy is called with at least one source and one target fragment (with none it returns 0 for every length)",
 ]
 trusted = ["hand-written model MptModel/Impl/Message.lean tied to mptcore/message/*.c, array/array_message.c by harness/drv_message.c",
@@ -100,7 +104,7 @@ def groups(frags, n):
         search += ["m chr %02x" % b, "m rchr %02x" % b]
     for s in SETS:
         search += ["m str " + s, "m rstr " + s, "m fcn " + s, "m rfcn " + s]
-    search += ["m append -", "m append 7a"]
+    search += ["m append -", "m append 7a", "m append - nomem:1", "m append - nomem:2", "m append 7a nomem:1"]
     tok = [f] + ["m tok %s %s %s" % t for t in TOKS]
     cpy = [f]
     for k in range(-1, n + 2):
@@ -170,6 +174,21 @@ def _scripts(tier, seed, scale=1):
                         out.append((nm + ":s" + s, [f, "m args " + s]))
                     out.append((nm + ":t", [f, "m tok 20 23 2722", "m tok null 23 27", "m tok null null 2722", "m tok 2c null null",
                                             "m tok null 23 null", "m tok 0a 23 22"]))
+    # refused appends: fragment sizes around the buffer capacities (64, 192, ...) so that the first, a middle or the
+    # last fragment needs an allocation, on an empty array, a small one and one that is exactly full; the k-th
+    # allocation inside the call fails
+    SZ = [0, 3, 61, 62, 64, 65, 130, 200, 2000]
+    for nf in (1, 2, 3):
+        for combo in itertools.product(SZ, repeat=nf):
+            if nf == 3 and (tier == "quick") and (combo[0] in (61, 130) or combo[1] in (62, 65) or combo[2] in (61, 64, 130)):
+                continue
+            fr = ",".join(gen.hexs([0x61 + i] * n) for i, n in enumerate(combo))
+            ops = ["m frags " + fr]
+            for pre in ("-", "7a7a", "7a" * 64, "7a" * 70):
+                ops.append("m append " + pre)
+                for k in (1, 2, 3):
+                    ops.append("m append %s nomem:%d" % (pre, k))
+            out.append(("app:" + "x".join(map(str, combo)), ops))
     # every queue of capacity <= 4 (thorough 5) through mpt_message_get
     qtop = 4 if tier == "quick" else 5
     for mx in range(1, qtop + 1):
@@ -262,6 +281,9 @@ def crossed(op, ln):
     ret = _ret(ln)
     if kind == "read":
         return w[2].isdigit() and int(w[2]) > u0
+    if kind == "append" and len(w) > 3:
+        # refused after at least one fragment had been appended (allocs >= 2)
+        return ret == "MissingBuffer" and f.get("allocs", "0").isdigit() and int(f["allocs"]) >= 2
     if kind in ("len", "rchr", "rstr", "rfcn", "args", "append"):
         return True
     if kind in ("chr", "str", "fcn", "tok"):
